@@ -324,26 +324,29 @@ func equal(lhsV, rhsV reflect.Value) bool {
 		return lhsB == rhsB
 	}
 
-	if holdsModule(lhsV, map[uintptr]bool{}) || holdsModule(rhsV, map[uintptr]bool{}) {
+	if holdsModule(lhsV, map[[2]uintptr]bool{}) || holdsModule(rhsV, map[[2]uintptr]bool{}) {
 		// containers that hold modules are compared element by element, a module by identity
-		return equalAroundModules(lhsV, rhsV, map[[2]uintptr]bool{})
+		return equalAroundModules(lhsV, rhsV, map[[3]uintptr]bool{})
 	}
 	return reflect.DeepEqual(lhsV.Interface(), rhsV.Interface())
 }
 
 // holdsModule reports whether a module is reachable from v through interface boxes, slices,
 // arrays and maps (modules themselves are not looked into)
-func holdsModule(v reflect.Value, seen map[uintptr]bool) bool {
+func holdsModule(v reflect.Value, seen map[[2]uintptr]bool) bool {
 	switch v.Kind() {
 	case reflect.Interface:
 		return !v.IsNil() && holdsModule(v.Elem(), seen)
 	case reflect.Ptr:
 		return moduleOf(v) != nil
 	case reflect.Slice, reflect.Map:
-		if v.IsNil() || seen[v.Pointer()] {
+		// a slice is known by its first element AND its length: a shorter view of the same
+		// array (a[0:1] next to a) is another slice
+		key := [2]uintptr{v.Pointer(), uintptr(v.Len())}
+		if v.IsNil() || seen[key] {
 			return false
 		}
-		seen[v.Pointer()] = true
+		seen[key] = true
 	case reflect.Array:
 	default:
 		return false
@@ -367,7 +370,7 @@ func holdsModule(v reflect.Value, seen map[uintptr]bool) bool {
 // equalAroundModules is reflect.DeepEqual for values that hold modules: it walks interface
 // boxes, slices, arrays and maps like DeepEqual does, compares a module by identity instead of
 // walking its tables (which its own lock guards), and leaves everything else to DeepEqual
-func equalAroundModules(l, r reflect.Value, seen map[[2]uintptr]bool) bool {
+func equalAroundModules(l, r reflect.Value, seen map[[3]uintptr]bool) bool {
 	if !l.IsValid() || !r.IsValid() {
 		return l.IsValid() == r.IsValid()
 	}
@@ -391,7 +394,9 @@ func equalAroundModules(l, r reflect.Value, seen map[[2]uintptr]bool) bool {
 		if l.IsNil() || l.Pointer() == r.Pointer() {
 			return true
 		}
-		pair := [2]uintptr{l.Pointer(), r.Pointer()}
+		// the lengths are equal here; they belong to the pair: shorter views of the same two
+		// arrays, compared earlier, say nothing about these
+		pair := [3]uintptr{l.Pointer(), r.Pointer(), uintptr(l.Len())}
 		if seen[pair] {
 			return true
 		}
